@@ -24,6 +24,7 @@ def history(method):
     op = st.one_of(st.tuples(st.just('step'), st.sampled_from(['sgd', 'sgd', 'adam'])),
                    st.tuples(st.just('step'), st.sampled_from(['sgd', 'adam'])),
                    st.tuples(st.just('opt'), st.one_of(*opts)),
+                   st.tuples(st.just('opt'), st.one_of(*opts)),
                    st.tuples(st.just('mode'), st.sampled_from(['train', 'eval'])),
                    # which parameter group trains (a run-time flag, not part of the checkpoint
                    # and not observable: the usual warm-up / search / fine-tune phases)
